@@ -22,6 +22,9 @@ func (m *Mutex) Lock() {
 }
 
 func (m *Mutex) TryLock() bool {
+	if vsched.Active() {
+		vsched.Point("Mutex.TryLock")
+	}
 	if m.held {
 		return false
 	}
@@ -76,6 +79,30 @@ func (m *RWMutex) RUnlock() {
 		panic("sync: RUnlock of unlocked RWMutex")
 	}
 	m.readers--
+}
+
+// TryLock / TryRLock: a scheduling point (whether the lock is free depends on who ran first),
+// never blocking.
+func (m *RWMutex) TryLock() bool {
+	if vsched.Active() {
+		vsched.Point("RWMutex.TryLock")
+	}
+	if m.w || m.readers > 0 {
+		return false
+	}
+	m.w = true
+	return true
+}
+
+func (m *RWMutex) TryRLock() bool {
+	if vsched.Active() {
+		vsched.Point("RWMutex.TryRLock")
+	}
+	if m.w {
+		return false
+	}
+	m.readers++
+	return true
 }
 
 func (m *RWMutex) RLocker() Locker { return (*rlocker)(m) }
